@@ -341,6 +341,15 @@ func runC12(c *Ctx) {
 			R.Ob("(*Conn).handleAuth/accept condition equals advertisement", c.P.InstrPos(site), strings.Join(got, "&&") == `(*Conn).authAllowed(param0) == true`, fmt.Sprintf("AUTH accepted under %v", got))
 		}
 	}
+	// every advertised mechanism is accepted: the AUTH handler hands the (upper-cased) name to the backend's Auth
+	// whenever the session supports authentication — it does not filter it against a list of its own
+	if g := c.A.Func("(*Conn).auth"); g != nil {
+		c.obMustUnder("mechanism decided by the backend", g, []string{"cb:AuthSession.Auth"}, `assert[AuthSession](Conn.session)#1 == true`)
+		for _, site := range s.Find(g, "cb:AuthSession.Auth") {
+			a := describe(callCommon(site).Args[0])
+			R.Ob(c.siteKey(site, "backend asked for the requested mechanism"), c.P.InstrPos(site), a == "param1", "AuthSession.Auth is called with "+a)
+		}
+	}
 	// the advertised RCPTMAX value is the limit the RCPT handler applies, per transaction: refusal exactly when the
 	// transaction's own accepted recipients have reached it
 	if f := c.A.Func("(*Conn).handleRcpt"); f != nil {
